@@ -40,7 +40,8 @@ func (p *PathBuilder) String() string {
 	sb := NewStringBuilder()
 	defer FreeStringBuilder(sb)
 	for i, v := range *p {
-		if i > 0 && (*p)[i-1] != "" && v[0] != '[' {
+		// an empty segment (a field whose tag is "") has no first byte to look at
+		if i > 0 && (*p)[i-1] != "" && (len(v) == 0 || v[0] != '[') {
 			sb.WriteString(".")
 		}
 		sb.WriteString(v)
